@@ -538,6 +538,7 @@ func (d *Data) GetBlocks(v dvid.VersionID, start dvid.ChunkPoint3d, span int32) 
 
 	var numBlocks int
 	var wg sync.WaitGroup
+	failed := new(chunkFailure)
 	err = okvDB.ProcessRange(ctx, keyBeg, keyEnd, &storage.ChunkOp{}, func(c *storage.Chunk) error {
 		if c == nil || c.TKeyValue == nil {
 			return nil
@@ -563,17 +564,20 @@ func (d *Data) GetBlocks(v dvid.VersionID, start dvid.ChunkPoint3d, span int32) 
 		// Spawn goroutine to transfer data
 		numBlocks++
 		wg.Add(1)
-		go xferBlock(buf[i:j], c, &wg)
+		go xferBlock(buf[i:j], c, &wg, failed)
 		return nil
 	})
 	if err != nil {
 		return nil, err
 	}
 	wg.Wait()
+	if failed.err != nil {
+		return nil, failed.err
+	}
 	return buf, nil
 }
 
-func xferBlock(buf []byte, chunk *storage.Chunk, wg *sync.WaitGroup) {
+func xferBlock(buf []byte, chunk *storage.Chunk, wg *sync.WaitGroup, failed *chunkFailure) {
 	defer wg.Done()
 
 	kv := chunk.TKeyValue
@@ -581,10 +585,12 @@ func xferBlock(buf []byte, chunk *storage.Chunk, wg *sync.WaitGroup) {
 	block, _, err := dvid.DeserializeData(kv.V, uncompress)
 	if err != nil {
 		dvid.Errorf("Unable to deserialize block (%v): %v", kv.K, err)
+		failed.set(fmt.Errorf("unable to deserialize block (%v): %v", kv.K, err))
 		return
 	}
 	if len(block) != len(buf) {
 		dvid.Errorf("Deserialized block length (%d) != allocated block length (%d)", len(block), len(buf))
+		failed.set(fmt.Errorf("deserialized block length (%d) != allocated block length (%d)", len(block), len(buf)))
 		return
 	}
 	copy(buf, block)
